@@ -251,6 +251,24 @@ Proof.
   intros Hf. unfold vis_of. rewrite viss_upd_vis. destruct (N.eqb n m); destruct (get m (viss s)); cbn; auto.
 Qed.
 
+(* the creation-stage field does not interfere with the other fields *)
+Lemma stg_insts f s : insts (RecordSet.set stage f s) = insts s. Proof. reflexivity. Qed.
+Lemma stg_thinst f s : thinst (RecordSet.set stage f s) = thinst s. Proof. reflexivity. Qed.
+Lemma stg_confs f s : confs (RecordSet.set stage f s) = confs s. Proof. reflexivity. Qed.
+Lemma stg_viss f s : viss (RecordSet.set stage f s) = viss s. Proof. reflexivity. Qed.
+Lemma stg_threads f s : threads (RecordSet.set stage f s) = threads s. Proof. reflexivity. Qed.
+Lemma stg_vis_of f s n : vis_of (RecordSet.set stage f s) n = vis_of s n. Proof. reflexivity. Qed.
+Lemma stg_stage f s : stage (RecordSet.set stage f s) = f (stage s). Proof. reflexivity. Qed.
+Lemma upd_inst_stage i f s : stage (upd_inst i f s) = stage s.
+Proof. unfold upd_inst. destruct (get i (insts s)); reflexivity. Qed.
+Lemma upd_vis_stage n f s : stage (upd_vis n f s) = stage s.
+Proof. unfold upd_vis. destruct (get n (viss s)); reflexivity. Qed.
+Lemma set_thread_stage th t s : stage (set_thread th t s) = stage s. Proof. reflexivity. Qed.
+Lemma write_status_stage n s0 s : stage (write_status n s0 s) = stage s.
+Proof. unfold write_status. apply upd_vis_stage. Qed.
+#[export] Hint Rewrite stg_insts stg_thinst stg_confs stg_viss stg_threads stg_vis_of stg_stage
+  upd_inst_stage upd_vis_stage set_thread_stage write_status_stage : sup.
+
 Ltac inst_here :=
   autorewrite with sup; rewrite ?N.eqb_refl;
   repeat match goal with E : get ?i (insts ?s) = Some ?x |- context[get ?i (insts ?s)] => rewrite E end;
@@ -265,7 +283,8 @@ Lemma own_effect s th e s' : step_own s th e = Some s' ->
    exited x' = (match e with EWaitReturn _ => None | _ => exited x end) /\
    launches x' = (match e with ELaunch true => S (launches x) | _ => launches x end) /\
    (forall n, st (vis_of s' n) = st (vis_of s n)) /\
-   (match e with EWaitReturn c => exited x = Some c | _ => True end).
+   (match e with EWaitReturn c => exited x = Some c | _ => True end) /\
+   stage s' = stage s.
 Proof.
   intros H. destruct e; kind_cases H; split_andb.
   all: match goal with H1 : get _ (thinst _) = Some ?i, H2 : get ?i (insts _) = Some ?x |- _ => exists i, x end.
@@ -278,6 +297,7 @@ Proof.
   all: try (intros n0; unfold set_pc; autorewrite with sup; try reflexivity; apply st_vis_of_upd_vis; intros; reflexivity).
   all: try (match goal with H : opt_eqb Z.eqb ?a (Some ?c) = true |- ?a = Some ?c =>
               destruct a; cbn in H; [apply Z.eqb_eq in H; now subst|discriminate] end).
+  all: try (unfold set_pc; autorewrite with sup; reflexivity).
 Qed.
 
 (* ---- effect of a status write ------------------------------------------------------------------------ *)
@@ -285,7 +305,7 @@ Inductive state_tr (s : sys) (th : tid) (i : iid) (s0 : status) (x x' : inst) : 
 | STstopRun c : spc (get_thread s th) = SRun i c -> s0 = STerminating -> pc x' = pc x -> state_tr s th i s0 x x'
 | STstopPend : spc (get_thread s th) = SPendE i -> s0 = STerminating -> pc x' = pc x -> state_tr s th i s0 x x'
 | STspawn todo : s0 = SPending -> pc x = IDeps todo -> pc x' = pc x ->
-    has i (map (fun p => (snd p, tt)) (thinst s)) = false -> state_tr s th i s0 x x'
+    has i (map (fun p => (snd p, tt)) (thinst s)) = false -> at_stage s th i 0 = true -> state_tr s th i s0 x x'
 | STrun : get th (thinst s) = Some i -> pc x = IPreLaunch -> s0 = SRunning -> pc x' = IStateSet -> state_tr s th i s0 x x'
 | STrestart c : get th (thinst s) = Some i -> pc x = IWillRestart c -> s0 = SRestarting -> pc x' = IRestarting c ->
     state_tr s th i s0 x x'
@@ -296,7 +316,8 @@ Lemma state_effect s th i s0 s' : step_state s th i s0 = Some s' ->
    (forall j, j <> i -> get j (insts s') = get j (insts s)) /\
    thinst s' = thinst s /\ confs s' = confs s /\ nm x' = nm x /\ cf x' = cf x /\
    alive x' = alive x /\ exited x' = exited x /\ launches x' = launches x /\
-   viss s' = viss (write_status (nm x) s0 s) /\ state_tr s th i s0 x x'.
+   viss s' = viss (write_status (nm x) s0 s) /\ state_tr s th i s0 x x' /\
+   stage s' = (if status_eqb s0 SPending then set i (th, 1) (stage s) else stage s).
 Proof.
   intros H. kind_cases H; split_andb;
   repeat match goal with E : status_eqb _ _ = true |- _ => apply status_eqb_eq in E; subst end;
@@ -309,13 +330,15 @@ Proof.
   all: split; [unfold set_pc, end_finish; autorewrite with sup; reflexivity|].
   all: repeat (split; [reflexivity || (unfold set_pc, end_finish; autorewrite with sup; reflexivity)|]).
   all: repeat match goal with H : ?a = ?b :> N |- _ => subst a || subst b end.
+  all: split; [|unfold set_pc, end_finish; autorewrite with sup; cbn; rewrite ?status_eqb_refl; try reflexivity].
+
   all: first [ eapply STstopRun; [eassumption|reflexivity|reflexivity]
              | eapply STstopPend; [eassumption|reflexivity|reflexivity]
              | eapply STrun; [eassumption|eassumption|reflexivity|reflexivity]
              | eapply STrestart; [eassumption|eassumption|reflexivity|reflexivity]
              | eapply STend; [eassumption|eassumption|reflexivity]
              | match goal with |- state_tr _ _ _ _ ?x _ => destruct (pc x) eqn:Epc; try discriminate end;
-               eapply STspawn; [reflexivity|exact Epc|reflexivity|assumption] ].
+               eapply STspawn; [reflexivity|exact Epc|reflexivity|assumption|assumption] ].
 Qed.
 
 (* ---- effect of onProcessEnd entry / exit ---------------------------------------------------------------- *)
@@ -333,7 +356,7 @@ Lemma procend_effect s th i s0 b s' : step_procend s th i s0 b = Some s' ->
    (forall j, j <> i -> get j (insts s') = get j (insts s)) /\
    thinst s' = thinst s /\ confs s' = confs s /\ nm x' = nm x /\ cf x' = cf x /\
    alive x' = alive x /\ exited x' = exited x /\ launches x' = launches x /\
-   viss s' = viss s /\ procend_tr s th i s0 b x x'.
+   viss s' = viss s /\ procend_tr s th i s0 b x x' /\ stage s' = stage s.
 Proof.
   intros H. kind_cases H; split_andb;
   repeat match goal with E : status_eqb _ _ = true |- _ => apply status_eqb_eq in E; subst end;
@@ -343,6 +366,7 @@ Proof.
   all: split; [intros jj Hj; unfold set_pc; autorewrite with sup; apply N.eqb_neq in Hj; rewrite N.eqb_sym in Hj; rewrite ?Hj; reflexivity|].
   all: repeat (split; [reflexivity || (unfold set_pc; autorewrite with sup; reflexivity)|]).
   all: repeat match goal with H : ?a = ?b :> N |- _ => subst a || subst b end.
+  all: split; [|unfold set_pc; autorewrite with sup; reflexivity].
   all: first [ eapply PTstopE; [reflexivity|eassumption|reflexivity|reflexivity]
              | eapply PTstopX; [reflexivity|eassumption|reflexivity|reflexivity]
              | eapply PTownE; [reflexivity|eassumption|eassumption|reflexivity]
@@ -350,9 +374,10 @@ Proof.
 Qed.
 
 Lemma newinst_effect s th i n s' : step_reg s th (ENewInst i n) = Some s' ->
-  exists c, get n (confs s) = Some c /\ get i (insts s) = None /\ s' = s <| insts := set i (new_inst n c) (insts s) |>.
+  exists c, get n (confs s) = Some c /\ get i (insts s) = None /\ creates (get_thread s th) n = true /\
+            s' = set_stage th i 0 (s <| insts := set i (new_inst n c) (insts s) |>).
 Proof.
-  intros H. unfold step_reg in H. break_step H. subst s'. exists p. repeat split.
+  intros H. unfold step_reg in H. break_step H. subst s'. exists p. repeat split; auto.
   apply negb_true_iff in E0. unfold has in E0. destruct (get i (insts s)); [discriminate|reflexivity].
 Qed.
 
